@@ -167,8 +167,6 @@ Fixpoint join (l : list la) : la :=
   | x :: r => x ++ spc :: join r
   end.
 
-(* model.Params : what the status file records *)
-Definition record (ps : list pair) : la := join (map stringify ps).
 
 (* decimal numerals for $1 .. $n *)
 Definition digit (n : nat) : ascii := ascii_of_nat (48 + n).
@@ -213,6 +211,33 @@ Fixpoint escape (v : la) : la :=
   match v with [] => [] | c :: r => if aeq c dq then bs :: dq :: escape r else c :: escape r end.
 Definition quoted (v : la) : la := dq :: escape v ++ [dq].
 
+(* ---- model.Params (status.go, since 92cc1cc): what the status file records ------------------------------ *)
+(* quoteParam sees the stringified parameter only: text before the first = (when it is non-empty and has no white
+   space or quote) is taken for a name *)
+Fixpoint cut_eq (s : la) : option (la * la) :=
+  match s with
+  | [] => None
+  | c :: r => if aeq c eqc then Some ([], r)
+              else match cut_eq r with Some (a, b) => Some (c :: a, b) | None => None end
+  end.
+Definition clean_ch (c : ascii) : bool := negb (is_space c) && negb (aeq c dq).
+Definition simple_ch (c : ascii) : bool := negb (is_space c) && negb (aeq c dq) && negb (aeq c bt).
+Definition qsplit (p : la) : la * la :=
+  match cut_eq p with
+  | Some (a :: a', b) => if forallb clean_ch (a :: a') then (a :: a', b) else ([], p)
+  | _ => ([], p)
+  end.
+Definition is_nil (l : la) : bool := match l with [] => true | _ => false end.
+(* written as it stands: non-empty, no white space / quote / back-tick, and - without a name - no = *)
+Definition plain (nm v : la) : bool :=
+  negb (is_nil v) && forallb simple_ch v && (negb (is_nil nm) || forallb (fun x => negb (aeq x eqc)) v).
+Definition quote_param (p : la) : la :=
+  let '(nm, v) := qsplit p in
+  if plain nm v then p
+  else (match nm with [] => [] | _ => nm ++ [eqc] end) ++ quoted v.
+
+Definition record (ps : list pair) : la := join (map quote_param (map stringify ps)).
+
 Definition render_item (it : item) : la :=
   match it with
   | IWord v => v
@@ -254,11 +279,17 @@ Definition v0_item (it : item) : bool :=
   end.
 Definition V0 (its : list item) : bool := forallb v0_item its.
 
-(* V1: parameter pairs that survive record -> re-parse *)
+(* V1: parameter pairs that survive record -> re-parse.
+   - whatever has to be written quoted must not end with a backslash (the grammar cannot express it);
+   - a positional value must not look like NAME=value (an = after a non-empty prefix without white space / quote):
+     the recorded text is the same as that of the named parameter, so it comes back as one;
+   - a name is a name (non-empty, no white space, = or quote) - always true of what the parser produced. *)
+Definition bs_ok (st : la) : bool := let '(nm, v) := qsplit st in plain nm v || negb (last_is bs v).
 Definition v1_pair (p : pair) : bool :=
+  bs_ok (stringify p) &&
   match fst p with
-  | [] => word_ok (snd p) && no_inner_eq (snd p)
-  | n => name_ok n && word_ok (snd p)
+  | [] => is_nil (fst (qsplit (snd p)))
+  | n => name_ok n
   end.
 Definition V1 (ps : list pair) : bool := forallb v1_pair ps.
 
@@ -269,7 +300,7 @@ Definition parse (s : la) : list pair := tokens s.
 Definition parse_params (s : string) : list string :=
   map (fun p => string_of_list_ascii (stringify p)) (parse (list_ascii_of_string s)).
 Definition record_str (l : list string) : string :=
-  string_of_list_ascii (join (map list_ascii_of_string l)).
+  string_of_list_ascii (join (map (fun s => quote_param (list_ascii_of_string s)) l)).
 
 (* ---------------------------------------------------------------------------------------------- *)
 (* strings.TrimSpace (Go): leading and trailing unicode.IsSpace runes of the UTF-8 decoding; an      *)
